@@ -735,3 +735,64 @@ def c_trees(batch, limit=2048):
     parts.append("#define MAX_NODES %d" % max([len(s["outcome"].nodes) for s in batch] + [1]))
     parts.append("#define MAX_DEPTH %d" % max(s["outcome"].depth for s in batch))
     return "\n".join(parts) + "\n"
+
+
+# ----------------------------------------------------------------------------------------------
+# nesting spines (C19)
+# ----------------------------------------------------------------------------------------------
+def spine(kinds, inner):
+    """Open the containers in `kinds` (outermost first), put `inner` innermost, then close everything properly."""
+    seq, closers = [], []
+    for i, k in enumerate(kinds):
+        f = FORMS[i % 5]
+        if k == "tag":
+            seq.append(tok("tag", form=f, imm=i % 24)); closers.append([])
+        elif k == "arr":
+            seq.append(tok("arr", n=1, form=f)); closers.append([])
+        elif k == "iarr":
+            seq.append(tok("iarr")); closers.append([tok("break")])
+        elif k == "mapkey":      # nested item in key position
+            seq.append(tok("map", n=1, form=f)); closers.append([tok("leaf", leaf="uint_imm0")])
+        elif k == "mapval":      # nested item in value position
+            seq += [tok("map", n=1), tok("leaf", leaf="negint8")]; closers.append([])
+        elif k == "imapval":
+            seq += [tok("imap"), tok("tstr", len=1)]; closers.append([tok("break")])
+        elif k == "imapkey":
+            seq.append(tok("imap")); closers.append([tok("leaf", leaf="true"), tok("break")])
+        else:
+            raise ValueError(k)
+    seq += inner
+    for c in reversed(closers):
+        seq += c
+    return seq
+
+
+SPINE_KINDS = ["tag", "arr", "iarr", "mapkey", "mapval", "imapval", "imapkey"]
+
+
+def spine_family(L):
+    """Spines at depths L-1, L, L+1 and 2L+1 from every container kind; chunked strings innermost count as one more level."""
+    fam, seen = [], set()
+    for depth in sorted(set([max(L - 1, 0), L, L + 1, 2 * L + 1])):
+        for start in range(len(SPINE_KINDS)):
+            kinds = [SPINE_KINDS[(start + j * (1 + start % 3)) % len(SPINE_KINDS)] for j in range(depth)]
+            for inner_name, inner in (("leaf", [tok("leaf", leaf=LEAF_NAMES[(start + depth) % len(LEAF_NAMES)])]),
+                                      ("chunked", [tok("ibstr"), tok("bstr", len=1), tok("break")]),
+                                      ("empty_def", [tok("arr", n=0)])):
+                if inner_name != "leaf" and start % 2:
+                    continue
+                s = spine(kinds, inner)
+                bs = seq_bytes(s)
+                if tuple(bs) in seen or not bs:
+                    continue
+                seen.add(tuple(bs))
+                n = len(bs)
+                o = ref_load(bs, L)
+                # truncation points: every head boundary (so the MEMERROR position and the preceding NOTENOUGHDATA prefixes are both probed)
+                bounds, p = [], 0
+                for t in s:
+                    p += len(tok_bytes(t))
+                    bounds.append(p)
+                fam.append(dict(name="depth%d %s [%s]" % (depth, inner_name, seq_name(s)), bytes=bs, toks=s, outcome=o, truncs=sorted(set(bounds)), in_S=False,
+                                nheads=len(s), status="complete" if o.ok else "error", k=0, depth=depth))
+    return fam
